@@ -161,16 +161,16 @@ def main(tier):
             sargs = [bytes(rng.randrange(256) for _ in range(rng.choice([1, 20, 32]))) for _ in range(rng.choice([1, 2]))]
             lock = b"".join(b"\xa8\x20" + hashlib.sha256(a).digest() + b"\x88" for a in reversed(sargs))    # the last argument is on top
             scripts[idx] = lock + b"\x20" + lpk + b"\xac"
-        sh_jobs.append((sk, key, lsk, scripts, idx, mode, rng.randrange(3), rng.randrange(1, 10 ** 8), sargs))
+        sh_jobs.append((sk, key, lsk, scripts, idx, mode, rng.randrange(3), rng.randrange(1, 10 ** 8), sargs, rng.choice([1, 2, 2, 3, 0x7fffffff, 0xffffffff])))
     sh_lines = ["tap id=s%d key=%s scripts=%s hrp=bcrt idx=%d" % (i, j[1].hex(), ",".join(x.hex() for x in j[3]), j[4]) for i, j in enumerate(sh_jobs)]
     sh_model = run_model(sh_lines)
     def run_sh(ij):
-        i, (sk, key, lsk, scripts, idx, mode, vpos, amount, sargs) = ij
+        i, (sk, key, lsk, scripts, idx, mode, vpos, amount, sargs, txver) = ij
         f = dict(x.split("=", 1) for x in sh_model["s%d" % i][0].split()[2:] if "=" in x)
         outkey = bytes.fromhex(f["outkey"]); spk = b"\x51\x20" + outkey
         outs = [(rng.randrange(1, 10 ** 7), bytes([0x6a, 1, k])) for k in range(vpos)] + [(amount, spk)] + [(7, b"\x51")]
         fund = S.Tx(2, [(bytes(range(32)), 0, b"", 0xffffffff)], outs, 0)
-        tx = S.Tx(2, [(fund.txid(), vpos, b"", 0xfffffffd)], [(amount - 500, b"\x51\x20" + bytes(32))], 17)
+        tx = S.Tx(txver, [(fund.txid(), vpos, b"", 0xfffffffd)], [(amount - 500, b"\x51\x20" + bytes(32))], 17)       # the version is signed over
         base = ["-pbcrt", "--tx=" + tx.raw().hex(), "--txin=" + fund.raw().hex(), key.hex(), str(len(scripts))] + ["0x" + x.hex() for x in scripts]
         args = base + ([str(idx)] + ["0x" + a.hex() for a in sargs] if mode != "key" else [])
         r1 = cli.run(tapbin, args, stdin_tty=True, stdout_tty=True)
